@@ -1744,6 +1744,12 @@ func ruleC08PropertyNames(c *Ctx) {
 		}
 		n++
 		okStr, why := false, "the instance is not built by reflect.ValueOf"
+		converted := false
+		for _, src := range append(traceSourcesDeep(s.Inst), s.Inst) {
+			if call, ok := src.(*ssa.Call); ok && core.CalleeKey(&call.Call) == "reflect.Value.Convert" {
+				converted = true
+			}
+		}
 		for _, src := range append(traceSourcesDeep(s.Inst), s.Inst) {
 			call, ok := src.(*ssa.Call)
 			if !ok {
@@ -1758,10 +1764,13 @@ func ruleC08PropertyNames(c *Ctx) {
 					why = "reflect.ValueOf is applied to a " + t.String()
 				}
 			case "reflect.Value.Convert":
-				okStr = true // converted to a chosen type (the string type) before evaluation
+				okStr, why = false, "the name is converted to another type (the map's key type) before it is evaluated"
 			}
 		}
-		if !okStr {
+		if converted {
+			okStr, why = false, "the name is converted to another type (the map's key type) before it is evaluated"
+		}
+		if !okStr && !converted {
 			for _, src := range append(traceSourcesDeep(s.Inst), s.Inst) {
 				if p, ok := src.(*ssa.Parameter); ok {
 					why = "the instance is the value " + p.Name() + " handed over by an iterator (a map key with its Go type)"
